@@ -88,7 +88,9 @@ Example C02_example_runs :
   run_example Async (fun _ n => pred n) = Some (0%nat, ["served"; "done"], true) /\
   run_example Sync (fun _ _ => 0%nat) = Some (1%nat, ["served"; "done"], true) /\
   run_example_drop Async (fun _ _ => 0%nat) = Some (0%nat, ["dropped"], true) /\
-  run_example_drop Async (fun _ n => pred n) = Some (0%nat, ["dropped"], true).
+  run_example_drop Async (fun _ n => pred n) = Some (0%nat, ["dropped"], true) /\
+  run_example_split Async (fun _ _ => 0%nat) = Some (0%nat, ["made"; "done"], true) /\
+  run_example_split Sync (fun _ _ => 0%nat) = Some (1%nat, ["made"; "done"], true).
 Proof. repeat split; vm_compute; reflexivity. Qed.
 
 Print Assumptions C02_progress_partial.
